@@ -153,6 +153,12 @@ def make_views(is_async):
         # a derived view registered later under the same names: it replaces the base view also for what it inherits unchanged
         def helper(self):
             return 'V2.helper'
+
+        # a public name that is a plain attribute in a base (Mix1.helper_data = 7) and a method here: it is a public callable
+        # of THIS view
+        def helper_data(self):
+            return 'V2.helper_data'
+
     class V3(pjrpc.server.ViewMixin):
         # a registered view that cannot be built for this request (a key the context lacks): the name IS registered, so the
         # answer is anything but "method not found"
@@ -167,7 +173,7 @@ def make_views(is_async):
 
 VIEW_PUBLIC = [{'pm': 'V0.pm', 'alpha': 'V0.alpha', 'st': 'V0.st', 'cm': 'V0.cm', 'inherited': 'view:inherited', 'mixed': 'mix0:mixed'},
                {'pm': 'V1.pm', 'helper': 'mix1:helper', 'shelper': 'mix1:shelper'},
-               {'pm': 'V2.pm', 'helper': 'V2.helper', 'shelper': 'mix1:shelper'},
+               {'pm': 'V2.pm', 'helper': 'V2.helper', 'shelper': 'mix1:shelper', 'helper_data': 'V2.helper_data'},
                {'km': 'registered-but-fails:-32603'}]
 VIEW_PRIVATE = ['_priv', '__dd__', 'data', 'names', '_hidden', '_mixpriv', 'helper_data', '__init__', '__methods__', '__class__', '__dict__', '__doc__']
 
